@@ -249,7 +249,7 @@ def _flux_shape(fn, src):
     return kinds
 
 
-def generate(repo, gen_dir):
+def _generate(repo, gen_dir):
     from translate import gen_all
     report = {'gaps': [], 'constants': {}, 'functions': [], 'hs_defaults': {}}
     gaps = report['gaps']
@@ -399,3 +399,19 @@ def generate(repo, gen_dir):
     except Exception as e:
         gaps.append(f'write: {e!r}')
     return report
+
+
+def generate(repo, gen_dir):
+    """Never raises; on an unexpected error the generated file is replaced by a stub that
+    makes every dependent file fail to build (fail closed) instead of leaving a stale file."""
+    try:
+        return _generate(repo, gen_dir)
+    except Exception as e:
+        try:
+            from translate import gen_all
+            gen_all.write_if_changed(os.path.join(gen_dir, 'Constants.v'),
+                                     '(* GENERATED stub: translator failed: %s *)\nDefinition gen_constants_ok : bool := false.\n'
+                                     % repr(e).replace('*)', '* )'))
+        except Exception:
+            pass
+        return {'gaps': ['translator exception: %r' % (e,)], 'error': repr(e)}
